@@ -48,13 +48,19 @@ func isClosedEmpty(ch chan []byte) (closed bool, got []string) {
 // TestC18 — deterministic, model-based part: the production registry and PollWorker.Process are driven
 // single-threaded against a reference model of live listeners with FIFO buffers.
 func TestC18(t *testing.T) {
-	stats := core.NewStats("C18", "(a) rapid state machine over connect(group,id,buffer) / disconnect / reconnect-same-id / drain / send(group, id|none, invoke|resume|notify) on the production connection registry and PollWorker.Process (single-threaded hook), with connection limits and buffer sizes down to 1; reference model: registry of live listeners with FIFO buffers. Oracle per send: Done(true) => exactly one live listener's buffer grew by exactly this body, it is in the addressed group, it is the addressed id if that id is connected, for notifications only that id; Done(false) => no buffer changed; replaced, disconnected and over-limit connections are closed exactly once (a double close panics), totals conserved. (b) wire level: the real plugin with real SSE clients, churn during delivery: every body is read at most once over all clients, only in its group, every Done(true) body is read by a client. Non-trivial: a send that follows a disconnect/reconnect in its group, hits a full buffer, or addresses an id that is not connected. Distinct = operation sequence shape.")
+	stats := core.NewStats("C18", "(a) rapid state machine over connect(group,id,buffer) / disconnect / reconnect-same-id / drain / send(group, id|none, invoke|resume|notify) on the production PollWorker loop (Start) on harness-owned connect/disconnect/message channels, one operation at a time with a barrier message between operations, with connection limits and buffer sizes down to 1; reference model: registry of live listeners with FIFO buffers. Oracle per send: Done(true) => exactly one live listener's buffer grew by exactly this body, it is in the addressed group, it is the addressed id if that id is connected, for notifications only that id; Done(false) => no buffer changed; replaced, disconnected and over-limit connections are closed exactly once (a double close panics), totals conserved. (b) wire level: the real plugin with real SSE clients, churn during delivery: every body is read at most once over all clients, only in its group, every Done(true) body is read by a client. Non-trivial: a send that follows a disconnect/reconnect in its group, hits a full buffer, or addresses an id that is not connected. Distinct = operation sequence shape.")
 	defer stats.Write()
 	rapid.Check(t, func(rt *rapid.T) {
 		stats.Eval()
 		m := metrics.New(prometheus.NewRegistry())
 		max := rapid.SampledFrom([]int{1, 2, 3, 100}).Draw(rt, "max")
-		w := poll.NewVerifWorker(max, m)
+		w := poll.NewVerifLoop(max, m)
+		stopped := false
+		defer func() {
+			if !stopped {
+				w.Stop()
+			}
+		}()
 		var conns []*mconn
 		seq := 0
 		var trace []string
@@ -96,8 +102,8 @@ func TestC18(t *testing.T) {
 					fail("%s: connection #%d (%s/%s) closed=%v, the model expects closed=%v", when, i, c.group, c.id, closed, c.closed)
 				}
 			}
-			if w.VerifLen() != nlive() {
-				fail("%s: registry counts %d connections, the model %d", when, w.VerifLen(), nlive())
+			if w.Len() != nlive() {
+				fail("%s: registry counts %d connections, the model %d", when, w.Len(), nlive())
 			}
 		}
 		groups := []string{"g1", "g2"}
@@ -124,7 +130,7 @@ func TestC18(t *testing.T) {
 				var p any
 				func() {
 					defer func() { p = recover() }()
-					nc.real = w.VerifConnect(g, id, buf)
+					nc.real = w.Connect(g, id, buf)
 				}()
 				if p != nil {
 					fail("connect %s/%s panicked: %v", g, id, p)
@@ -145,7 +151,7 @@ func TestC18(t *testing.T) {
 				var p any
 				func() {
 					defer func() { p = recover() }()
-					w.VerifDisconnect(c.real)
+					w.Disconnect(c.real)
 				}()
 				if p != nil {
 					fail("disconnect of %s/%s (live=%v) panicked: %v", c.group, c.id, c.live, p)
@@ -166,7 +172,7 @@ func TestC18(t *testing.T) {
 				var p any
 				func() {
 					defer func() { p = recover() }()
-					w.Process(&aio.Message{Type: message.Invoke, Data: []byte(data), Body: []byte(body), Done: func(s bool, e error) { done++; ok = s }})
+					w.Send(&aio.Message{Type: message.Invoke, Data: []byte(data), Body: []byte(body), Done: func(s bool, e error) { done++; ok = s }})
 				}()
 				if p != nil {
 					fail("a message with receiver data %s crashed the transport: %v", data, p)
@@ -203,7 +209,7 @@ func TestC18(t *testing.T) {
 				var p any
 				func() {
 					defer func() { p = recover() }()
-					w.Process(&aio.Message{Type: typ, Data: db, Body: []byte(body), Done: func(s bool, e error) { done++; ok, derr = s, e }})
+					w.Send(&aio.Message{Type: typ, Data: db, Body: []byte(body), Done: func(s bool, e error) { done++; ok, derr = s, e }})
 				}()
 				if p != nil {
 					fail("send panicked: %v", p)
@@ -268,6 +274,15 @@ func TestC18(t *testing.T) {
 			},
 		})
 		audit("end")
+		// shutdown: the loop closes every remaining connection (exactly once: a double close panics the process)
+		w.Stop()
+		stopped = true
+		for i, c := range conns {
+			closed, _ := isClosedEmpty(c.real.Chan())
+			if !closed {
+				fail("after shutdown connection #%d (%s/%s) is still open", i, c.group, c.id)
+			}
+		}
 		if nontrivial {
 			stats.Nontriv(strings.Join(shape(trace), ","), map[string]any{"max_connections": max, "operations": trace})
 		}
